@@ -40,6 +40,9 @@ func main() {
 	fs.Parse(os.Args[2:])
 	switch cmd {
 	case "check":
+		if os.Getenv("NSQVC_NO_REPLAY") != "" { // selftest runs over the seeded corpus: the demonstrations are known, skip them
+			*noReplay = true
+		}
 		os.Exit(runCheck(*repo, *prop, *tier, *fnFilter, *outDir, *noReplay, *verbose))
 	case "lock":
 		os.Exit(runLock(*repo, *outDir))
